@@ -193,6 +193,7 @@ pub fn gen_c12_case(g: &mut G) -> Value {
     if g.chance(1, 3) {
         // conjunctions whose result has several members: enumerations that overlap partly,
         // required sets and property sets contributed by both sides
+        doc["definitions"]["SeveralPatterns"] = json!({"type": "object", "patternProperties": {"^x-": {"type": "string"}, "^y-": {"type": "string"}, "^[a-c]+$": {"type": "string"}, "^z": {"type": "string"}, "-q$": {"type": "string"}, "^m.*n$": {"type": "string"}}, "additionalProperties": false});
         doc["definitions"]["OverlapStates"] = json!({"type": "string", "enum": ["draft", "open", "blocked", "review", "merged", "closed"]});
         doc["definitions"]["OverlapNarrowed"] = json!({"allOf": [{"$ref": "#/definitions/OverlapStates"}, {"enum": ["triaged", "open", "blocked", "review", "merged", "closed", "archived"]}]});
         doc["definitions"]["OverlapInline"] = json!({"allOf": [{"type": "string", "enum": ["n", "e", "s", "w", "up"]}, {"type": "string", "enum": ["down", "w", "s", "e", "n"]}]});
